@@ -109,6 +109,10 @@ def decision_table(report, rule, finfo, atoms, classify, spec, consistent=None,
   unknown = {}
   for val in enumerate_valuations(atoms, consistent):
     n_val += 1
+    try:
+      classify.valuation = val  # a classifier may consult the row it is in
+    except AttributeError:
+      pass
     dec = make_decider(val, classify,
                        on_unknown=lambda e: unknown.setdefault(norm(e), e))
     val_paths = cfgm.walk_paths(g, dec, follow_exc=follow_exc)
@@ -724,3 +728,20 @@ def dict_builds(finfo):
                           target=n.target, iter=n.iter,
                           name=st.targets[0].value.id, node=n))
   return out
+
+
+def is_any_over_values(e, attr, owner_suffix):
+  """`any(<t>.<attr> for <t> in <...owner_suffix>.values())` without filters
+  (also over a list comprehension)."""
+  if not (isinstance(e, ast.Call) and isinstance(e.func, ast.Name) and
+          e.func.id == 'any' and len(e.args) == 1 and not e.keywords and
+          isinstance(e.args[0], (ast.GeneratorExp, ast.ListComp))):
+    return False
+  ge = e.args[0]
+  if len(ge.generators) != 1 or ge.generators[0].ifs:
+    return False
+  gen = ge.generators[0]
+  return isinstance(gen.target, ast.Name) and dotted(ge.elt) == \
+      gen.target.id + '.' + attr and isinstance(gen.iter, ast.Call) and \
+      not gen.iter.args and (dotted(gen.iter.func) or '').endswith(
+          owner_suffix + '.values')
